@@ -165,3 +165,45 @@ func SchedKey(s []GateStep) string {
 	}
 	return b.String()
 }
+
+// TraceCheck validates recorded executions (code -> spec): it asks TLC whether
+// the concatenation of traces is a behaviour of Journal.tla for this scenario
+// (JournalTrace.tla), evaluating every safety invariant in every state of the
+// observed executions.  It returns accepted, the number of trace lines matched,
+// and the TLC result.
+func (s *JScenario) TraceCheck(c *core.Ctx, traces [][]GateStep) (bool, int, *core.TLCResult, error) {
+	mod := "MCT_" + s.Name
+	var lines []GateStep
+	for i, t := range traces {
+		if i > 0 {
+			lines = append(lines, GateStep{Lbl: "reset"})
+		}
+		lines = append(lines, t...)
+	}
+	m := strings.Replace(s.MCModule(mod), "EXTENDS Journal\n", "EXTENDS JournalTrace\n", 1)
+	var b strings.Builder
+	fmt.Fprintf(&b, "\\* trace validation, generated from lakeh.JScenario %q\nSPECIFICATION TraceSpec\nCONSTANTS\n", s.Name)
+	fmt.Fprintf(&b, "  Clients <- MCClients\n  Script <- MCScript\n  InitTable <- MCInit\n")
+	fmt.Fprintf(&b, "  MaxRetries = %d\n  MaxCommitRetries = %d\n  PreemptBound = 99\n  CrashBound = %d\n", s.MaxRetries, s.MaxCommitRetries, s.CrashBound)
+	fmt.Fprintf(&b, "  MoveChecksId = %s\n  Export = FALSE\n", strings.ToUpper(strconv.FormatBool(s.MoveChecksID)))
+	fmt.Fprintf(&b, "INVARIANTS %s NotAccepted\n", strings.Join(s.Invariants, " "))
+	res, err := c.RunTLC(core.TLCRun{
+		Module:  mod,
+		Cfg:     b.String(),
+		Files:   map[string][]byte{mod + ".tla": []byte(m), "trace.ndjson": core.NDJSON(lines)},
+		Workers: 1,
+	})
+	if err != nil {
+		return false, 0, res, err
+	}
+	switch {
+	case res.Status == "invariant" && res.Violated == "NotAccepted":
+		return true, len(lines), res, nil
+	case res.Status == "ok":
+		// no behaviour of the spec matches the whole trace
+		return false, int(res.Depth) - 1, res, nil
+	default:
+		// a real safety invariant failed on the observed execution, or a TLC problem
+		return false, int(res.Depth) - 1, res, nil
+	}
+}
